@@ -15,6 +15,9 @@ CHECKS = {
  "C05": dict(cat="model_checking", tech="TLA+ GoExpr.tla: TLC enumerates all expression trees (<=3 operators, unary prefixes), checks Parse(Unparse(t))=t, emits expected values; each replayed on the real parser+VM; random larger expressions validated by TLC (Eval(Parse(tokens)))",
    text="GoExpr.tla defines Go's grouping twice (Unparse with minimal parentheses and a reference precedence-climbing Parse) and TLC proves them inverse on every enumerated tree. Every well-typed tree with <=3 binary operators (and every placement of one or two unary prefixes, quick: <=2 operators) is emitted with its values under 4 environments (int32 wrap-around, short-circuit, run-time errors) and evaluated by the real parser and VM; 4-6 operator random expressions with nested prefixes and redundant parentheses are evaluated by the real code and validated by TLC.",
    note="&^ is not tokenized by goatlang and is excluded; operand values are fixed environments; calibration against the Go toolchain on a random sample of the enumerated expressions", ref="6/C05"),
+ "C12": dict(cat="model_checking", tech="TLA+ IntMapSpec.tla/StructSpec.tla: TLC validation of operation traces of the real robin-hood table (with bucket-layout invariants on dumps) and of generated struct programs",
+   text="IntMapSpec.tla is the abstract finite function plus the robin-hood layout invariants on bucket dumps; every operation on the real table (hook VerifIntMap) over collision-heavy key sets crossing every growth/shrink threshold is validated by TLC, including dumps. StructSpec.tla states field independence, zero values, reference semantics and method presence; generated struct programs (0..200 fields, methods, filler names that shift interned field indices, aliases, an instance of a type defined from the struct type) are run and every printed observation validated by TLC.",
+   note="type adoption by Assign is covered through C04's field positions, not at table level; the table hook forwards to the unexported table unchanged", ref="6/C12"),
 }
 NOT_YET = {}
 def main():
